@@ -192,6 +192,9 @@ func propC11(e *Env) {
 					problems = append(problems, fmt.Sprintf("%s export failed: %v", name, err))
 					return
 				}
+				if msg := c11HistogramCoherent(name, out); msg != "" {
+					problems = append(problems, msg)
+				}
 				for _, l := range strings.Split(out, "\n") {
 					m := c11SampleRe.FindStringSubmatch(l)
 					if m == nil || strings.HasPrefix(l, "#") {
@@ -244,6 +247,9 @@ func propC11(e *Env) {
 		startExporter("json", rounds, func() (string, error) {
 			s, err := handler(ex.HandleJSON)()
 			jsonOut = s
+			if msg := c11HistogramCoherentJSON(s); msg != "" {
+				problems = append(problems, msg)
+			}
 			return "", err
 		})
 	}
@@ -416,4 +422,101 @@ func propC11(e *Env) {
 	e.R.Nontrivial = nExporters > 0 && (withGC || withReload)
 	e.R.Key = fmt.Sprintf("%d|%d|%v|%v|%x", N, nExporters, withGC, withReload, e.S.Signature())
 	e.R.Sample = map[string]any{"lines": N, "exporters": nExporters, "gc_loop": withGC, "reloads": reloads, "statement_preemption": e.S.StmtPreempt}
+}
+
+var c11BucketRe = regexp.MustCompile(`^lat_bucket\{(.*?),?le="([^"]+)"\} (\S+)$`)
+var c11CountRe = regexp.MustCompile(`^lat_count(\{.*\})? (\S+)$`)
+
+// c11HistogramCoherent checks one Prometheus text exposition: for every histogram label set the
+// cumulative bucket counts never decrease and the +Inf bucket equals the sample count. A histogram
+// whose parts disagree was never a value of the histogram.
+func c11HistogramCoherent(name, body string) string {
+	if name == "graphite" {
+		// <prefix>.bin_<max> <n> <ts> ... <prefix>.count <n> <ts>
+		bins := map[string]uint64{}
+		for _, l := range strings.Split(body, "\n") {
+			f := strings.Fields(l)
+			if len(f) != 3 {
+				continue
+			}
+			if i := strings.LastIndex(f[0], ".bin_"); i >= 0 {
+				n, _ := strconv.ParseUint(f[1], 10, 64)
+				bins[f[0][:i]] += n
+			}
+		}
+		for _, l := range strings.Split(body, "\n") {
+			f := strings.Fields(l)
+			if len(f) == 3 && strings.HasSuffix(f[0], ".count") {
+				pre := strings.TrimSuffix(f[0], ".count")
+				n, _ := strconv.ParseUint(f[1], 10, 64)
+				if b, ok := bins[pre]; ok && b != n {
+					return fmt.Sprintf("graphite export: histogram %s has %d observations in its bins but a count of %d: the histogram never had that value", pre, b, n)
+				}
+			}
+		}
+		return ""
+	}
+	if name != "prometheus" {
+		return ""
+	}
+	inf := map[string]float64{}
+	prev := map[string]float64{}
+	for _, l := range strings.Split(body, "\n") {
+		if m := c11BucketRe.FindStringSubmatch(l); m != nil {
+			v, _ := strconv.ParseFloat(m[3], 64)
+			key := "{" + m[1] + "}"
+			if v < prev[key] {
+				return fmt.Sprintf("prometheus export: cumulative bucket counts of lat%s decrease at le=%s (%v after %v)", key, m[2], v, prev[key])
+			}
+			prev[key] = v
+			if m[2] == "+Inf" {
+				inf[key] = v
+			}
+		}
+	}
+	for _, l := range strings.Split(body, "\n") {
+		if m := c11CountRe.FindStringSubmatch(l); m != nil {
+			v, _ := strconv.ParseFloat(m[2], 64)
+			key := m[1]
+			if key == "" {
+				key = "{}"
+			}
+			if iv, ok := inf[key]; ok && iv != v {
+				return fmt.Sprintf("prometheus export: histogram lat%s has %v observations in its buckets but a count of %v: the histogram never had that value", key, iv, v)
+			}
+		}
+	}
+	return ""
+}
+
+// c11HistogramCoherentJSON checks the /json output: the bucket counts of a histogram datum add up to its Count.
+func c11HistogramCoherentJSON(body string) string {
+	var ms []struct {
+		Name        string
+		LabelValues []struct {
+			Labels []string
+			Value  struct {
+				Buckets map[string]uint64
+				Count   uint64
+			}
+		}
+	}
+	if json.Unmarshal([]byte(body), &ms) != nil {
+		return ""
+	}
+	for _, m := range ms {
+		for _, lv := range m.LabelValues {
+			if lv.Value.Buckets == nil {
+				continue
+			}
+			var sum uint64
+			for _, c := range lv.Value.Buckets {
+				sum += c
+			}
+			if sum != lv.Value.Count {
+				return fmt.Sprintf("json export: histogram %s%v has %d observations in its buckets but a Count of %d: the histogram never had that value", m.Name, lv.Labels, sum, lv.Value.Count)
+			}
+		}
+	}
+	return ""
 }
